@@ -28,12 +28,13 @@ def dec(ns, unit):
 
 
 def spell_bound(rng, b_ns, e_ns, default_unit, style=None):
-    """one of the equivalent spellings of [b_ns, e_ns]"""
+    """one of the equivalent spellings of [b_ns, e_ns]; a forced style uses units other than the default unit"""
+    units = [u for u in U if u != default_unit] if style else list(U)
     style = style or rng.choice(['both', 'both', 'end', 'begin', 'none'])
     sep = rng.choice([',', ':'])
     if style == 'none':
         return '[%s%s%s]' % (dec(b_ns, default_unit), sep, dec(e_ns, default_unit)), style
-    ub, ue = rng.choice(list(U)), rng.choice(list(U))
+    ub, ue = rng.choice(units), rng.choice(units)
     if style == 'both':
         return '[%s%s%s%s%s]' % (dec(b_ns, ub), ub, sep, dec(e_ns, ue), ue), style
     if style == 'end':       # begin inherits the unit of end
@@ -106,7 +107,9 @@ class C08(Check):
                 styles = []
                 bad = [False]
 
-                def bound(b, e, styles=styles, bad=bad):
+                forced = ['begin', 'end', 'both'][v] if i < 16 else None      # the fixed formulas in every one-sided notation
+
+                def bound(b, e, styles=styles, bad=bad, forced=forced):
                     b_ns, e_ns = b * pns, e * pns
                     if kind == 'reject' and not bad[0] and pns > 1:
                         bad[0] = True
@@ -121,7 +124,7 @@ class C08(Check):
                         else:
                             b_ns += 1
                             e_ns += pns
-                    txt, st = spell_bound(rng, b_ns, e_ns, default_unit)
+                    txt, st = spell_bound(rng, b_ns, e_ns, default_unit, forced)
                     styles.append(st)
                     return txt
                 text = fml.to_text(f, bound)
